@@ -38,16 +38,39 @@ POOLS = {
 }
 
 
+# pumped pools: one universe that already has n members (added in order through the public call), two
+# further vertices; every history of <= depth membership calls on {first member, last member, the two
+# outsiders} from there (behaviour that depends on the size of a universe)
+PUMPED = {
+    "quick": dict(ns=list(range(0, 13)), depth=6),
+    "thorough": dict(ns=list(range(0, 13)) + [15, 16, 17, 31, 32, 33], depth=8),
+}
+
+
 class Sys:
     def __init__(self, spec):
         self.spec = spec
 
     def initial(self):
+        if "pumped" in self.spec:
+            n = self.spec["pumped"]
+            w = SWorld(n + 2, 1)
+            w.created = 0
+            for k in range(n):
+                w.u[0].add_vertex(w.v[k])
+            return w
         w = SWorld(self.spec["nv"], self.spec["nu"])
         w.created = 0
         return w
 
     def ops(self, w):
+        if "pumped" in self.spec:
+            n = self.spec["pumped"]
+            focus = sorted({n, n + 1} | ({0, n - 1} if n else set()))
+            out = []
+            for x in focus:
+                out += [("uadd", 0, x), ("a2u", x, 0), ("urem", 0, x), ("rfu", x, 0)]
+            return out
         nm = len(w.v) + len(w.u)
         out = []
         for k in range(len(w.u)):
@@ -230,6 +253,25 @@ def run(tier, seed, log):
                          "constructor_leaf_transitions": res.pruned, "max_depth": res.depth,
                          "fixpoint": res.exhaustive, "cap_hit": res.cap, "wall_s": round(res.wall, 1)})
         samples += [{"pool": spec, "history": h} for h in res.sample_histories[-3:]]
+    pump = PUMPED[tier]
+    pstates = ptrans = 0
+    for n in pump["ns"]:
+        spec = {"pumped": n, "nv": n + 2, "nu": 1, "maxnew": 0, "seqlen": 0, "expand_new": False}
+        res = engine_h.explore(Sys(spec), seed=seed, max_depth=pump["depth"])
+        for fp, (cnt, rec) in res.viols.items():
+            rec = dict(rec)
+            rec["pool"] = spec
+            rep.add("pumped|" + fp, rec, cnt)
+        pstates += res.states
+        ptrans += res.transitions
+        tot["states"] += res.states
+        tot["transitions"] += res.transitions
+        tot["validated"] += res.validated
+        tot["nontrivial"] += res.nontrivial
+    log(f"[{PROP}] pumped universes n={pump['ns']} depth<={pump['depth']}: states={pstates} transitions={ptrans}")
+    pools_ev.append({"pool": "pumped universes (n members; every history of <= depth focused membership calls)",
+                     "member_counts": pump["ns"], "depth": pump["depth"], "states": pstates,
+                     "transitions": ptrans, "fixpoint": False})
     rep.coverage = {
         "states": tot["states"], "transitions": tot["transitions"],
         "traces_validated_against_impl": tot["validated"],
